@@ -131,7 +131,8 @@ func (m *consModel) exec(o *opDef, n int64) *execErr {
 	case "last2":
 		r = nthCell(s, max(0, cellLen(s)-2))
 	case "butlast", "butlast2", "subseq-0-2", "subseq-1", "subseq-1-3", "subseq-0-0", "copy-list", "reverse", "mapcar",
-		"maprow-list*", "maprow-list", "maprow-cons", "maprow-append":
+		"maprow-list*", "maprow-list", "maprow-cons", "maprow-append",
+		"via-vector", "via-vector-set", "via-values", "copy-seq", "concatenate", "map-list", "copy-tree", "revappend", "ldiff":
 		r = mkList(o.want(elemsOf(s), nil, n), nil)
 	case "append1":
 		r = s
@@ -348,6 +349,8 @@ func (m *sliceModel) exec(o *opDef, n int64) *execErr {
 		}
 	case "maprow-list*", "maprow-list", "maprow-cons", "maprow-append":
 		r = []int64{s[0], s[0]}
+	case "via-vector", "via-vector-set", "via-values", "copy-seq", "concatenate", "map-list", "copy-tree", "revappend", "ldiff":
+		r = clone(o.want(s, nil, 0))
 	case "append1":
 		r = clone(s)
 	case "reverse":
